@@ -211,8 +211,17 @@ class DLPOLY_PairTabulationFactory(PairTabulationFactory):
 
   def extract_cutoffs(self, cp):
     cutoffs = super(DLPOLY_PairTabulationFactory, self).extract_cutoffs(cp)
-    if cutoffs.nr % 4 != 0:
-      raise ConfigurationException("The number of rows in a DL_POLY TABLE file needs to be divisible by 4. Number of rows specified = {} ".format(cutoffs.nr))
+    if cutoffs.nr % 4 != 0 or cutoffs.nr < 8:
+      raise ConfigurationException("The number of rows in a DL_POLY TABLE file needs to be divisible by 4 (and at least 8). Number of rows specified = {} ".format(cutoffs.nr))
+    return cutoffs
+
+class LAMMPS_PairTabulationFactory(PairTabulationFactory):
+  """PairTabulationFactory that checks that a LAMMPS table has at least two rows (the row for r = 0 is not tabulated) and raises ConfigException otherwise"""
+
+  def extract_cutoffs(self, cp):
+    cutoffs = super(LAMMPS_PairTabulationFactory, self).extract_cutoffs(cp)
+    if cutoffs.nr < 3:
+      raise ConfigurationException("A LAMMPS table needs at least two rows, that is nr >= 3 (the r = 0 row is not written). Number of rows specified = {} ".format(cutoffs.nr))
     return cutoffs
 
 class ADP_EAMTabulationFactory(EAMTabulationFactory):
@@ -242,7 +251,7 @@ class ADP_EAMTabulationFactory(EAMTabulationFactory):
 
 """Target name to factory objects"""
 TABULATION_FACTORIES = {
-  "LAMMPS"       :  PairTabulationFactory("LAMMPS", LAMMPS_PairTabulation),
+  "LAMMPS"       :  LAMMPS_PairTabulationFactory("LAMMPS", LAMMPS_PairTabulation),
   "DLPOLY"       :  DLPOLY_PairTabulationFactory("DLPOLY", DLPoly_PairTabulation),
   "GULP"         :  PairTabulationFactory("GULP", GULP_PairTabulation),
   "excel"        :  PairTabulationFactory("excel", Excel_PairTabulation),
